@@ -99,7 +99,9 @@ var c12IDs = []string{"seed1", "seed2", "seed3", "x1", "x2", "x3"}
 // c12Ops derives the deterministic operation list of a configuration.
 func c12Ops(cfg c12Cfg) []c12Op {
 	r := rand.New(rand.NewSource(cfg.Seed))
-	ops := []c12Op{{Kind: "init-bad", Bad: true}, {Kind: "init"}, {Kind: "create", ID: "x1", U: "first", K: "ab"}, {Kind: "update", ID: "x1", U: "second", K: "b"},
+	// seed2 is created (and updated) by the application before the first successful Init:
+	// Init must keep the acknowledged value and only add the missing seeds
+	ops := []c12Op{{Kind: "init-bad", Bad: true}, {Kind: "create", ID: "seed2", U: "own2", K: "b"}, {Kind: "update", ID: "seed2", U: "own2b", K: "ba"}, {Kind: "init"}, {Kind: "create", ID: "x1", U: "first", K: "ab"}, {Kind: "update", ID: "x1", U: "second", K: "b"},
 		{Kind: "create", ID: "x3", U: "nan1", K: "a", Bad: true}, {Kind: "update", ID: "x1", U: "nan2", K: "a", Bad: true},
 		{Kind: "update", ID: "seed1", U: "s1b", K: "z"}, {Kind: "delete", ID: "x1"}, {Kind: "create", ID: "x2", U: "third", K: ""}}
 	for i := 0; i < cfg.Steps; i++ {
